@@ -1761,3 +1761,47 @@ def x4(facts, tier):
                  f"{st}: claims the layout probed by {sorted(reached)[0].rsplit('::', 1)[-1]} (its own probe)" if not bad else
                  f"the schema of `{st}` claims the memory layout probed by `{bad[0].rsplit('::', 1)[-1]}`, which examines a different type: "
                  f"layout_compatible then treats `{st}` as interchangeable in memory with that type and a reference to it is passed as a raw pointer")
+
+
+# ---------------------------------------------------------------------------------------------
+# K10 (C14): every stored byte of the nonce header ends up in the nonce state
+
+@rule("K10", ["C14"], floor=1, doc="RandomNonceSequence::deserialize: every value read from the 12-byte header is stored in a field of the nonce "
+      "state (K5 then shows that every byte of that state reaches the nonce): a header byte that is read and discarded can be "
+      "modified without the file being rejected")
+def k10(facts, tier):
+    f = facts.fns.get("savefile::crypto::RandomNonceSequence::deserialize")
+    if f is None:
+        return
+    reads = [x for x in walk(f["body"]) if x.get("k") == "Call" and x.get("trait") == "byteorder::io::ReadBytesExt"]
+    lets = {}
+    for x in walk(f["body"]):
+        if x.get("k") == "LetS" and x["pat"].get("k") == "Bind" and x.get("init") is not None:
+            lets[x["pat"]["v"]] = x["init"]
+    adt = next((x for x in walk(f["body"]) if x.get("k") == "Adt" and (x.get("adt") or "").endswith("RandomNonceSequence")), None)
+    if adt is None or not reads:
+        yield ob(["C14"], "K10", "header-bytes-stored", "undecided", where(f), "reads / constructed state not found")
+        return
+    stored = set()
+    for fl in adt["fields"]:
+        e = fl["e"]
+        seen = 0
+        nodes = list(walk(e))
+        while seen < 5:
+            seen += 1
+            more = []
+            for y in nodes:
+                if y.get("k") == "Var" and y["v"] in lets:
+                    more.extend(walk(lets[y["v"]]))
+            if not more:
+                break
+            nodes = nodes + more
+        for y in nodes:
+            for r in reads:
+                if y is r:
+                    stored.add(id(r))
+    lost = [r for r in reads if id(r) not in stored]
+    yield ob(["C14"], "K10", "header-bytes-stored", "violation" if lost else "pass", where(f, lost[0] if lost else adt),
+             f"all {len(reads)} values read from the nonce header are stored in the nonce state" if not lost else
+             f"RandomNonceSequence::deserialize reads `{(callee(lost[0]) or '').rsplit('::', 1)[-1]}` from the header and does not store it in the nonce "
+             f"state: those header bytes no longer influence decryption, so a file with exactly those bytes modified is accepted")
